@@ -100,6 +100,16 @@ def _reservoirs(run, prog, ts):
     run.need(geo is not None, "anchor class GeometricReservoirStorage vanished")
     index = {id(ev): i for i, (ev, _) in enumerate(walk(s.events))}
     cons = [(ev, ctx) for ev, ctx in walk(s.events) if isinstance(ev, ir.Construct) and ev.qual == geo.qual]
+    if not cons:
+        # reservoirs made by copying a template object instead of constructing one
+        for ev, ctx in walk(s.events):
+            if isinstance(ev, ir.SubStore) and ev.cont[0] == "sub" and ev.cont[1] == ("field0", "data_reservoirs") and \
+                    ev.value[0] == "new" and ev.value[2] == "copy":
+                run.fail("RESERVOIR", "own-containers", f"{s.path}:{ev.line}", fq,
+                         f"leaf reservoir = shallow copy of {ir.show_nl(ev.value[3][0])[:60]}",
+                         "a new leaf reservoir is a shallow copy of a template storage: the copy shares the template's "
+                         "instance / target lists, so all leaf reservoirs (of all features) write into the same lists")
+                return
     run.need(cons, "TreeStorage.update never creates a leaf reservoir")
     cev, cctx = cons[0]
     pos, kw = list(cev.args), dict(cev.kwargs)
